@@ -245,6 +245,8 @@ def test_args(recipe, op, model=None):
     if batch or recipe["family"] in ("hadamard",):
         tb = []
     xs = zoo.rand(op["seed"], *tb, *batch, op["t"], d) * 1.2 - 0.1
+    if recipe.get("one_d") and not tb and not batch and d == 1 and op.get("seed", 0) % 2 == 0:
+        xs = xs.squeeze(-1)  # 1-D test inputs
     if recipe["family"] == "hadamard":
         idx = torch.randint(0, recipe["tasks"], (op["t"], 1), generator=zoo.gen(op["seed"] + 9))
         return (xs, idx)
@@ -272,6 +274,8 @@ def new_train_data(recipe, op, model):
     fixed = None
     if recipe["lik"].startswith("fixed") and kind == "newshape":
         fixed = zoo.fixed_noise_vector(op["seed"], batch, n)
+    if recipe.get("one_d") and len(inputs) == 1 and not batch and d == 1:
+        inputs = (x.squeeze(-1),)
     if kind == "targets_only":
         return None, y, None
     if kind == "inputs_only":
@@ -551,7 +555,7 @@ def step(ctx, i, op):
             with torch.no_grad():
                 if recipe["family"] != "grid":
                     for cur_t, new_t in zip(M.train_inputs, nx):
-                        cur_t.copy_(new_t)
+                        cur_t.copy_(new_t.reshape(cur_t.shape))
                 M.train_targets.copy_(ny)
             inputs, targets, fixed = tuple(M.train_inputs), M.train_targets, None
             out.stats["probe:set_train_data_same_tensor_objects"] += 1
